@@ -1,6 +1,7 @@
 """C15 -- reported peaks are maxima over the sweep (DESIGN 4.15)."""
 import ast
 
+from ..core import call_name as call_name  # noqa
 from ..core import (AnalysisError, access_path, const, find_all, match, short,
                     src, walk_no_nested, parent, path_str)
 from ..cfg import cfg_of
@@ -22,6 +23,11 @@ def run(ctx):
         'in assembly/pin_model/region_rodded/hotspot/plot/table',
         'R4 readers of _peak[duct] index like the writer (right-aligned)',
         'R5 outlet/average table columns read final-plane fields, not _peak']
+    ctx.decided += [
+        'R6 (rank domain) the face averages of the outlet duct field shift '
+        'cells along one axis only: np.roll / np.cumsum style reorderings of '
+        'a selection that keeps two or more axes must name the axis (without '
+        'it NumPy works on the flattened array and mixes ducts)']
     ctx.not_decided += ['numerical equality of table text and fields',
                         'duct temperatures recomputed at region activation']
     r1(ctx)
@@ -29,6 +35,8 @@ def run(ctx):
     r3(ctx)
     r4(ctx)
     r5(ctx)
+    r6(ctx)
+    ctx.min_instances('C15.R6', 2)
     ctx.min_instances('C15.R1', 3)
     ctx.min_instances('C15.R2', 9)
     ctx.min_instances('C15.R3', 7)
@@ -563,3 +571,47 @@ def r5(ctx):
                 e if e is not None else fi.node,
                 'Assembly.avg_coolant_temp must delegate to the active region',
                 key=fi.full + ' | delegate')
+
+
+# ---------------------------------------------------------------------------
+# R6: reorderings name their axis
+
+def _kept_axes(e):
+    """Lower bound on the number of axes an indexing expression keeps: full
+    or partial slices in its subscript tuple."""
+    if isinstance(e, ast.Subscript):
+        sl = e.slice
+        parts = sl.elts if isinstance(sl, ast.Tuple) else [sl]
+        return sum(1 for p_ in parts if isinstance(p_, ast.Slice))
+    return 0
+
+
+def r6(ctx):
+    n = 0
+    for fi in ctx.repo.all_funcs():
+        if fi.mod.name.startswith(('dassh.plot', 'dassh.py4c')):
+            continue
+        for c in walk_no_nested(fi.node):
+            if not (isinstance(c, ast.Call) and (call_name(c) or '') in (
+                    'np.roll', 'numpy.roll')):
+                continue
+            n += 1
+            has_axis = U.kwarg(c, 'axis') is not None or len(c.args) >= 3
+            arg = c.args[0] if c.args else None
+            rank = _kept_axes(arg) if arg is not None else 0
+            if isinstance(arg, ast.Name):
+                d = U.single_def(fi.node, arg.id)
+                if isinstance(d, ast.Call) and isinstance(
+                        d.func, ast.Attribute) and d.func.attr == 'reshape':
+                    rank = max(rank, len(d.args) if len(d.args) > 1 else (
+                        len(d.args[0].elts) if d.args and isinstance(
+                            d.args[0], ast.Tuple) else 0))
+            ctx.require(has_axis or rank < 2, 'C15.R6', fi, c,
+                        'np.roll without axis on a selection that keeps %d '
+                        'axes rolls the flattened array: the last cell of one '
+                        'duct / face wraps into another' % rank,
+                        key='%s | roll axis %s' % (fi.full,
+                                                   ' '.join(src(c).split())
+                                                   [:60]))
+    if n == 0:
+        raise AnalysisError('C15.R6: no np.roll call found')
